@@ -122,9 +122,14 @@ def run_paste(ctx, spec):
     env.setup()
     cands = wlxml.shipped(env.REPO)
     rng = ctx.rng
-    for it in range(spec['n']):
+    for it in range(spec['n'] + (1 if spec.get('shard') == 4 else 0)):
         k = rng.randint(2, 4)
-        st = streams.build(rng, cands, k=k, n_each=(40, 220), tagged=True, opts={'hot': rng.choice([0.3, 0.6, 0.08])})
+        deep = it == spec['n']
+        if deep:
+            # one id through > 700 incarnations: labels with every letter, z, az, za, zz ...
+            st = streams.build(rng, cands, k=1, n_each=2400, tagged=True, opts={'hot': 1.0, 'reuse_bias': 1.0, 'prompt_delete': 1.0, 'first': 'get_registry'})
+        else:
+            st = streams.build(rng, cands, k=k, n_each=(40, 220), tagged=True, opts={'hot': rng.choice([0.3, 0.6, 0.08]), 'tie_prefix': rng.choice([0, 0, 8, 30])})
         s, probs = objcheck.run_stream(ctx, st, want=('C02', 'C03', 'C04'))
         if probs:
             objcheck.report(ctx, st, probs)      # an attribution problem would make the paste-back meaningless
@@ -151,6 +156,9 @@ def run_paste(ctx, spec):
         for (ci, oid, gen) in labels:
             depth[(ci, oid)] = max(depth.get((ci, oid), 0), gen + 1)
         order = sorted(labels, key=lambda x: (-depth[(x[0], x[1])], rng.random()))
+        if deep:
+            zs = [x for x in labels if 'z' in history.letters(x[2])]
+            order = rng.sample(zs, min(45, len(zs))) + order[:15]
         for (ci, oid, gen) in order[:60]:
             name = st['names'][ci]
             lab = '%d%s' % (oid, history.letters(gen))
